@@ -108,7 +108,7 @@ def run(rep):
             if got != ('MATCH' if want else 'NOMATCH'):
                 rep.finding('unlisted', dict(c.readable(), implementation=c.impl[:200], specification='MATCH' if want else 'NOMATCH',
                                              what='date condition does not compare the true age'))
-            elif c.model is not None and ec.impl_core(c) != c.model:
+            elif c.model is not None and ec.impl_core(c) != ec.model_core(c):
                 bad_corr.append(c)
         else:
             stat['unit_cases'] += 1
